@@ -10,6 +10,7 @@ from props import common as K
 
 META = {
     "level": "other",
+    "technique": "static analysis of type-checked MIR (rustc_private driver): boundary-inclusive guard polarity, abstract-interpretation pivot tables, decoder-shape and digits-only must-pass rules, constructor tables",
     "explanation": "Validity window guards (boundary-inclusive) and Validity::trim provenance; encoder/decoder pivot agreement "
                    "(UTCTime ⇔ 1950..=2049 by abstract interpretation; two-digit years ≥ 50 → 19yy else 20yy in both "
                    "decoder copies); decoder shape (exactly six fixed-width fields, 'Z', every other tag fails, from_parts "
